@@ -10,6 +10,7 @@ import (
 	"fmt"
 	"go/token"
 	"go/types"
+	"sort"
 	"strings"
 
 	"golang.org/x/tools/go/ssa"
@@ -443,4 +444,95 @@ func mustPassEdgeP(f *ssa.Function, target *ssa.BasicBlock, okCond func(cond ssa
 		}
 	}
 	return true
+}
+
+// mustPassInstr: every feasible path from the entry of f to target executes
+// an instruction accepted by pass. Paths are pruned with the nil-ness of SSA
+// values learnt from earlier branches on the same path (v == nil / v != nil
+// tested twice).
+func mustPassInstr(f *ssa.Function, target ssa.Instruction, pass func(ins ssa.Instruction) bool) bool {
+	type state struct {
+		b     *ssa.BasicBlock
+		known string
+	}
+	seen := map[state]bool{}
+	ok := true
+	var walk func(b *ssa.BasicBlock, known map[ssa.Value]bool, depth int)
+	enc := func(m map[ssa.Value]bool) string {
+		var parts []string
+		for v, isNil := range m {
+			parts = append(parts, fmt.Sprintf("%s=%v", v.Name(), isNil))
+		}
+		sort.Strings(parts)
+		return strings.Join(parts, ",")
+	}
+	walk = func(b *ssa.BasicBlock, known map[ssa.Value]bool, depth int) {
+		if !ok || depth > 300 {
+			return
+		}
+		// facts about phis of this block are stale on entry
+		for _, ins := range b.Instrs {
+			if phi, isPhi := ins.(*ssa.Phi); isPhi {
+				delete(known, phi)
+			} else {
+				break
+			}
+		}
+		st := state{b, enc(known)}
+		if seen[st] {
+			return
+		}
+		seen[st] = true
+		for _, ins := range b.Instrs {
+			if ins == target {
+				ok = false
+				return
+			}
+			if pass(ins) {
+				return
+			}
+		}
+		last := b.Instrs[len(b.Instrs)-1]
+		ifi, isIf := last.(*ssa.If)
+		if !isIf {
+			for _, s := range b.Succs {
+				walk(s, copyKnown(known), depth+1)
+			}
+			return
+		}
+		// nil test?
+		var tested ssa.Value
+		nilOnTrue := false
+		for _, ef := range expandFacts([]edgeFact{{Cond: ifi.Cond, Truth: true}}) {
+			if bo, isB := ef.Cond.(*ssa.BinOp); isB && (bo.Op == token.EQL || bo.Op == token.NEQ) {
+				for _, pr := range [][2]ssa.Value{{bo.X, bo.Y}, {bo.Y, bo.X}} {
+					if isNilConst(pr[1]) {
+						tested = pr[0]
+						nilOnTrue = (bo.Op == token.EQL) == ef.Truth
+					}
+				}
+			}
+		}
+		for i, s := range b.Succs {
+			k2 := copyKnown(known)
+			if tested != nil {
+				isNil := nilOnTrue == (i == 0)
+				if prev, have := known[tested]; have && prev != isNil {
+					continue // infeasible
+				}
+				k2[tested] = isNil
+			}
+			walk(s, k2, depth+1)
+		}
+	}
+	walk(f.Blocks[0], map[ssa.Value]bool{}, 0)
+	return ok
+}
+
+func copyKnown(m map[ssa.Value]bool) map[ssa.Value]bool {
+	n := make(map[ssa.Value]bool, len(m))
+	for k, v := range m {
+		n[k] = v
+	}
+	return n
 }
